@@ -5,6 +5,7 @@
 struct call_rcu_data;
 static int set_thread_cpu_affinity(struct call_rcu_data *crdp) __attribute__((noinline));
 void urcu_mb_synchronize_rcu(void) __attribute__((noinline));
+struct call_rcu_data *urcu_mb_get_default_call_rcu_data(void) __attribute__((noinline));
 #include "urcu.c"
 #include "rt_api.h"
 /* ghost cells */
@@ -28,6 +29,14 @@ static void cb(struct rcu_head *h) {
 static inline void q(int i) { rt_gset(G_SNAP(i), rt_gget(G_OPEN) ? rt_gget(G_SEQ) : 0); call_rcu(&HD[i], cb); rt_gset(G_QD(i), 1); }
 void reader(void) { rt_gset(G_SEQ, rt_gget(G_SEQ) + 1); rt_gset(G_OPEN, 1); rt_gset(G_OPEN, 0); }     /* two visible-free ghost steps: the section is open between them only if preempted */
 void reader2(void) { rt_gset(G_SEQ, rt_gget(G_SEQ) + 1); rt_gset(G_OPEN, 1); (void)CMM_LOAD_SHARED(HD[0].func); rt_gset(G_OPEN, 0); }
+/* sequential prologue: create the default helper (the library's own pthread_create) so that the enqueuers take the fast path */
+void mkhelper(void) {     /* body of get_default_call_rcu_data() (which the thread instances see stubbed, see below) */
+  call_rcu_lock(&call_rcu_mutex);
+  if (default_call_rcu_data == NULL) call_rcu_data_init(&default_call_rcu_data, 0, -1);
+  call_rcu_unlock(&call_rcu_mutex);
+}
+/* once the helper exists get_default_call_rcu_data() just returns it: the enqueuers use this fast path only (creation = prologue) */
+struct call_rcu_data *my_get_default(void) { return default_call_rcu_data; }
 #if SCEN == 1
 void e1(void) { q(0); q(1); }
 void e2(void) { q(2); }
